@@ -255,6 +255,8 @@ class Frame:
                         v = nv
                 elif isinstance(v, Uninit):
                     raise Unrecognised("read of uninitialised place _%s" % local)
+                elif isinstance(v, Const) and isinstance(v.v, str):
+                    v = Sym("%s.%s" % (v.v, name if name is not None else idx), ty=strip_generics(e[3]))
                 else:
                     raise Unrecognised("field of %r" % (v,))
             elif isinstance(e, list) and e[0] == "d":
@@ -513,10 +515,20 @@ class Interp:
             if self.steps > MAX_STEPS:
                 raise Unrecognised("step limit (loop?) in %s" % body.path)
             blk = body.blocks[bb]
-            for st in blk["stmts"]:
+            skip_to = None
+            if skip_to is not None:
+                # log/trace event macros have no effect on program state: jump over the whole expansion
+                bb = skip_to
+                continue
+            for si, st in enumerate(blk["stmts"]):
                 if st["s"] == "assign":
                     pl = Place(st["place"])
-                    fr.write(pl.local, pl.proj, self.rvalue(fr, st["rv"]))
+                    try:
+                        fr.write(pl.local, pl.proj, self.rvalue(fr, st["rv"]))
+                    except Unrecognised as e:
+                        if " [at " in str(e):
+                            raise
+                        raise Unrecognised("%s [at %s bb%d stmt %d in %s]" % (e, body.loc(bb, si), bb, si, body.path))
             t = blk["term"]
             k = t["t"]
             if k == "goto":
@@ -532,7 +544,11 @@ class Interp:
                 return ("return", v, fr)
             elif k == "switch":
                 v = self.deref(self.operand(fr, t["discr"]))
-                bb = self.switch(t, v)
+                mac = t.get("mac") or []
+                if isinstance(v, Sym) and mac and mac[-1] in EVENT_MACROS and self.cfg.get("skip_tracing", True):
+                    bb = t["otherwise"]        # logging configuration does not influence program state
+                else:
+                    bb = self.switch(t, v)
             elif k == "drop":
                 bb = t["target"]
             elif k == "assert":
@@ -615,7 +631,9 @@ class Interp:
                                 a = rec
                                 break
                     if a is None:
-                        raise Unrecognised("discriminant of symbol of unknown enum %s" % adt)
+                        s = Sym("discr(%s)" % v.e, ty="isize")
+                        s.of = v
+                        return s
                     names = [x["name"] for x in a["variants"]]
                 if adt == "core::cmp::Ordering":
                     opts = [255, 0, 1]
@@ -694,8 +712,16 @@ class Interp:
         names = [strip_generics(func["fn"])]
         if "resolved" in func:
             names.insert(0, strip_generics(func["resolved"]))
-        args = [self.operand(fr, a) for a in t["args"]]
         dest = Place(t["dest"])
+        mac = t.get("mac") or []
+        if mac and mac[-1] in EVENT_MACROS and self.cfg.get("skip_tracing", True) and \
+                names[-1] in ("core::cmp::PartialOrd::le", "core::cmp::PartialOrd::lt", "core::cmp::PartialOrd::ge",
+                              "core::cmp::PartialOrd::gt", "core::cmp::PartialEq::eq"):
+            # the static level check of a tracing event macro: analyse the configuration in which the
+            # event is disabled (logging has no effect on program state)
+            fr.write(dest.local, dest.proj, boolv(False))
+            return None
+        args = [self.operand(fr, a) for a in t["args"]]
         model = self.cfg.get("model")
         res = None
         handled = False
@@ -994,6 +1020,61 @@ class Interp:
 
 class _Diverge(Exception):
     pass
+
+
+EVENT_MACROS = ("trace", "debug", "info", "warn", "error", "tracing::trace", "tracing::debug", "tracing::info",
+                "tracing::warn", "tracing::error", "log::trace", "log::debug", "log::info", "log::warn", "log::error")
+
+
+def _block_tag(body, bb):
+    blk = body.blocks[bb]
+    macs = [st.get("mac") for st in blk["stmts"] if st["s"] == "assign"] + [blk["term"].get("mac")]
+    tagged = [m for m in macs if m]
+    if not tagged:
+        # an empty connector block
+        if not [st for st in blk["stmts"] if st["s"] == "assign"] and blk["term"]["t"] == "goto":
+            return "connector"
+        return None
+    # expressions written by the user inside the macro arguments carry no expansion tag; a block belongs
+    # to the expansion when everything that *is* tagged in it comes from an event macro
+    if all(m[-1] in EVENT_MACROS for m in tagged):
+        return "event"
+    return None
+
+
+def tracing_region_exit(body, bb):
+    """if block bb starts (or lies in) the expansion of a tracing/log *event* macro, return the unique
+    block where control leaves the expansion; None otherwise."""
+    cache = getattr(body, "_trace_exit", None)
+    if cache is None:
+        cache = {}
+        body._trace_exit = cache
+    if bb in cache:
+        return cache[bb]
+    res = None
+    if _block_tag(body, bb) == "event":
+        region = set()
+        exits = set()
+        work = [bb]
+        while work:
+            x = work.pop()
+            if x in region:
+                continue
+            tag = _block_tag(body, x)
+            if tag is None and x != bb:
+                exits.add(x)
+                continue
+            region.add(x)
+            for s in body.succ(x):
+                work.append(s)
+        # connector blocks at the border belong to the surrounding code
+        real_exits = set()
+        for e in exits:
+            real_exits.add(e)
+        if len(real_exits) == 1:
+            res = next(iter(real_exits))
+    cache[bb] = res
+    return res
 
 
 def table(prog, body, args_factory, cfg=None, start=0, store_factory=None):
